@@ -753,7 +753,8 @@ def TrapDesc.toSpec : TrapDesc → STrapDesc
 /-- an operation result: normal completion or a thrown TypeError (other throw kinds do not occur in the model) -/
 abbrev R (α : Type) := Out α
 
-/-- The 11 essential internal methods that carry invariants, as state transformers over a world `σ`.
+/-- The internal methods of an object as state transformers over a world `σ`: the 11 that carry invariants, plus
+[[Call]] / [[Construct]] with the flags that say whether the object has them.
 `get`/`set` take the receiver as an opaque value. -/
 structure Ops (σ : Type) where
   getProto : σ → R (Option Nat) × σ
@@ -767,6 +768,12 @@ structure Ops (σ : Type) where
   set : Key → Val → Val → σ → R Bool × σ
   delete : Key → σ → R Bool × σ
   ownKeys : σ → R (List Key) × σ
+  /-- the object has a [[Call]] / [[Construct]] internal method (IsCallable / IsConstructor; `typeof` = "function" iff callable) -/
+  callable : Bool
+  constructor : Bool
+  /-- [[Call]](this, args) and [[Construct]](args, newTarget); only meaningful when `callable` / `constructor` -/
+  call : Val → List Val → σ → R Val × σ
+  construct : List Val → Val → σ → R Nat × σ
 
 /-- trap names (proxy.go:92) -/
 inductive Trap where
@@ -905,17 +912,32 @@ def proxyLayer {σ : Type} (compat : CompatFn) (tvp : Desc → VProp) (logf : Tr
           match mechOwnKeys ext (targetKeys.map (fun k => (k, true))) (trapKeys.map KItem.key) with
           | .ok r => (.ok r, s)
           | .typeError => (.typeError, s)
+  -- proxy.go:55-60 _newProxyObject: p.call / p.ctor are set iff the target is callable / a constructor, once, at creation
+  callable := T.callable
+  constructor := T.constructor
+  call := fun this args s =>                                               -- proxy.go:890 apply
+    if !T.callable then (.typeError, s) else                               -- :891 "proxy target is not a function"
+    bindR (T.call this args (logf .apply s)) fun v s => (.ok v, s)         -- :894 the trap's result is returned unchecked
+  construct := fun args nt s =>                                            -- proxy.go:900 construct
+    if !T.constructor then (.typeError, s) else                            -- :901 "proxy target is not a constructor"
+    bindR (T.construct args nt (logf .construct s)) fun o s =>
+      match mechConstruct (.obj o) with                                    -- :908 toObject(v)
+      | .ok r => (.ok r, s)
+      | .typeError => (.typeError, s)
 
 /-- one operation of a history -/
 inductive Op where
   | getProto | setProto (p : Option Nat) | isExt | prevExt | getOwn (k : Key) | define (k : Key) (d : PD)
   | has (k : Key) | get (k : Key) (rcv : Val) | set (k : Key) (v rcv : Val) | delete (k : Key) | ownKeys
+  | call (this : Val) (args : List Val) | construct (args : List Val) (newTarget : Val) | typeof
   deriving DecidableEq, Repr, Inhabited
 
 /-- observable result of one operation -/
 inductive Obs where
   | proto (r : R (Option Nat)) | bool (r : R Bool) | desc (r : R (Option Cur)) | val (r : R Val)
   | keys (r : R (List Key))
+  | obj (r : R Nat)
+  | kind (callable constructor : Bool)        -- what `typeof`, IsCallable, IsConstructor see
   deriving DecidableEq, Repr, Inhabited
 
 def Ops.run {σ : Type} (T : Ops σ) : Op → σ → Obs × σ
@@ -930,6 +952,11 @@ def Ops.run {σ : Type} (T : Ops σ) : Op → σ → Obs × σ
   | .set k v rcv, s => let (r, s) := T.set k v rcv s; (.bool r, s)
   | .delete k, s => let (r, s) := T.delete k s; (.bool r, s)
   | .ownKeys, s => let (r, s) := T.ownKeys s; (.keys r, s)
+  | .call this args, s =>                      -- calling a value without [[Call]] is a TypeError at the call site (§13.3.6.2)
+    if T.callable then (let (r, s) := T.call this args s; (.val r, s)) else (.val .typeError, s)
+  | .construct args nt, s =>
+    if T.constructor then (let (r, s) := T.construct args nt s; (.obj r, s)) else (.obj .typeError, s)
+  | .typeof, s => (.kind T.callable T.constructor, s)
 
 /-- run a history, collecting the observations -/
 def Ops.runAll {σ : Type} (T : Ops σ) : List Op → σ → List Obs × σ
@@ -944,8 +971,9 @@ def stack {σ : Type} (compat : CompatFn) (tvp : Desc → VProp) (logf : Nat →
   | 0 => T
   | n + 1 => proxyLayer compat tvp (logf (n + 1)) (stack compat tvp logf T n)
 
-/-- proxy.go:294 checkHandler + :1074 revoke: every internal method of a revoked proxy -/
-def revokedOps (σ : Type) : Ops σ where
+/-- proxy.go:294 checkHandler + :1074 revoke: every internal method of a revoked proxy throws; `typeof` and
+callability were fixed at creation (p.call / p.ctor survive revoke) -/
+def revokedOps {σ : Type} (T : Ops σ) : Ops σ where
   getProto := fun s => (.typeError, s)
   setProto := fun _ s => (.typeError, s)
   isExt := fun s => (.typeError, s)
@@ -957,13 +985,17 @@ def revokedOps (σ : Type) : Ops σ where
   set := fun _ _ _ s => (.typeError, s)
   delete := fun _ s => (.typeError, s)
   ownKeys := fun s => (.typeError, s)
+  callable := T.callable
+  constructor := T.constructor
+  call := fun _ _ s => (.typeError, s)
+  construct := fun _ _ s => (.typeError, s)
 
 /-- a proxy object: handler present (forwarding) or revoked (handler = nil) -/
 def proxyObj {σ : Type} (compat : CompatFn) (tvp : Desc → VProp) (logf : Trap → σ → σ) (T : Ops σ) (revoked : Bool) : Ops σ :=
-  if revoked then revokedOps σ else proxyLayer compat tvp logf T
+  if revoked then revokedOps T else proxyLayer compat tvp logf T
 
 def Obs.isTypeError : Obs → Bool
-  | .proto .typeError | .bool .typeError | .desc .typeError | .val .typeError | .keys .typeError => true
+  | .proto .typeError | .bool .typeError | .desc .typeError | .val .typeError | .keys .typeError | .obj .typeError => true
   | _ => false
 
 end GojaModel.C11
